@@ -338,7 +338,27 @@ async def main():
             if rng.random() < 0.3:
                 time.sleep(rng.random() * 0.001)
             await asyncio.sleep(0)
-    await asyncio.gather(user(1042), user(1043), user(1042))
+    # a lock file object that arrived pickled (that is what LockFile is
+    # picklable for) is a second object for the same file in this process;
+    # it is used for a third terminal and then dropped, while the other
+    # tasks are in the middle of their exchanges
+    async def visitor():
+        import pickle
+        for i in range(max(m // 5, 2)):
+            lf2 = pickle.loads(pickle.dumps(lf))
+            lock = ParallelMailboxLock(lf2, 1044)
+            async with lock:
+                c = lock.next_counter()
+                os.write(log, b"S %%d %%d %%d\n" %% (who, c, 1044))
+                await asyncio.sleep(0)
+                os.write(log, b"E %%d %%d %%d\n" %% (who, c, 1044))
+            del lock, lf2
+            for _ in range(rng.randint(1, 6)):
+                await asyncio.sleep(0)
+    if sys.argv[6] == "1":
+        await asyncio.gather(user(1042), user(1043), user(1042), visitor())
+    else:
+        await asyncio.gather(user(1042), user(1043), user(1042))
 asyncio.run(main())
 '''
 
@@ -349,9 +369,11 @@ def xproc_round(rng, tmpdir, res):
     path = os.path.join(tmpdir, f"x{rng.getrandbits(30)}")
     script = WORKER % dict(repo=REPO)
     delays = rng.random() < 0.7
+    visitor = rng.random() < 0.5
     procs = [subprocess.Popen([PYTHON, "-c", script, path, str(w), str(m),
                                str(rng.getrandbits(30)),
-                               "1" if delays else "0"],
+                               "1" if delays else "0",
+                               "1" if visitor else "0"],
                               stderr=subprocess.PIPE)
              for w in range(nproc)]
     errs = []
@@ -365,7 +387,9 @@ def xproc_round(rng, tmpdir, res):
         if p.returncode:
             errs.append(err.decode(errors="replace")[-300:])
     desc = dict(mode="xproc", processes=nproc, exchanges=m,
-                injected_delays=delays)
+                injected_delays=delays, pickled_lock_file_copies=visitor)
+    if visitor:
+        res.count("xproc_rounds_with_pickled_lock_file_copies")
     res.count("xproc_rounds_" + ("with_delays" if delays else "plain"))
     with open(path + ".log") as f:
         lines = [l.split() for l in f.read().splitlines()]
